@@ -200,6 +200,9 @@ def gen(tier, seed, sp_factory=None):
         for j in range(3):
             car = ['PartialEq', 'Eq'][(k + j) % 2]
             mods.append(emit(build(sh, car, car == 'Eq'), f'm{len(mods):04d}', f'{S.shape_id(sh)}/carrier={car}/explicitly not ignored #{j}', sp=Spelling(force={'notignoreform': j})))
+    for k, sh in enumerate(SINGLE_M_SHAPES):
+        car = ['PartialEq', 'Eq', 'PartialEq'][k]
+        mods.append(emit(build(sh, car, car == 'Eq'), f'm{len(mods):04d}', f'{S.shape_id(sh)}/carrier={car}/single compared field with a method'))
     for k, sh in enumerate(BOTH_SHAPES):
         car = ['PartialEq', 'Eq', 'PartialEq'][k]
         mods.append(emit(build(sh, car, car == 'Eq'), f'm{len(mods):04d}', f'{S.shape_id(sh)}/carrier={car}/ignore+method on one field'))
@@ -225,6 +228,12 @@ def gen(tier, seed, sp_factory=None):
 NOTIGN_SHAPES = [
     ('struct', [('named', ['f', 'i', 'p'])]),
     ('enum', [('tuple', ['f', 'f']), ('named', ['i', 'f']), ('unit', [])]),
+]
+# exactly one compared field, carrying a method, among ignored ones (single-field shortcuts must not forget the method)
+SINGLE_M_SHAPES = [
+    ('struct', [('named', ['i', 'm', 'i'])]),
+    ('struct', [('tuple', ['m', 'i'])]),
+    ('enum', [('tuple', ['i', 'm']), ('named', ['m', 'i', 'i']), ('unit', [])]),
 ]
 BOTH_SHAPES = [
     ('struct', [('named', ['p', 'x', 'p'])]),
